@@ -84,7 +84,7 @@ class TooLong(Exception):
     pass
 
 
-def record_path(model, X, y=None, script=None, frac=None, max_calls=4000, **pargs):
+def record_path(model, X, y=None, script=None, frac=None, max_calls=4000, call=None, ids="column", **pargs):
     """Run model.path(X, y, **pargs) under the recorders.
     script: list of integer scores / None(NaN) for the scripted GEMINI already installed as model.gemini (exact mode).
     frac: dict(keep=(N,D), esf=(N,D)) the rational values of keep_threshold / early_stopping_factor actually passed.
@@ -172,6 +172,7 @@ def record_path(model, X, y=None, script=None, frac=None, max_calls=4000, **parg
     except Exception:
         full, hasaff = None, False
     tr = train.Recorder(model, n, "path", False, None, hasaff, full, d=d)
+    tr.ids_mode = ids
     res, err = None, None
     with warnings.catch_warnings(record=True) as wlist:
         warnings.simplefilter("always")
@@ -187,7 +188,7 @@ def record_path(model, X, y=None, script=None, frac=None, max_calls=4000, **parg
             model._batchify = Count()
             bs.compute_val_score = spy_cvs
             try:
-                res = model.path(X, y, **pargs)
+                res = call() if call is not None else model.path(X, y, **pargs)
             except Exception as e_:
                 err = e_
             finally:
@@ -215,4 +216,4 @@ def record_path(model, X, y=None, script=None, frac=None, max_calls=4000, **parg
                            nanwarned=any("converged to nan" in m for m in msgs),
                            selok=selection_ok(model, X), nfeat_types=all(isinstance(v, (int, np.integer)) for v in nfeat)))
         tr.finish(X, y)
-    return dict(path=events, train=tr.events, err=err, result=res, warnings=msgs, alpha_after=getattr(model, "alpha", None), alpha0=alpha0)
+    return dict(path=events, train=tr.events, err=err, result=res, warnings=msgs, warnings_raw=list(wlist), alpha_after=getattr(model, "alpha", None), alpha0=alpha0)
